@@ -405,7 +405,7 @@ func c06(c *core.Check) {
 // c06Trivia: comments are to the parser what white space is (CSS Syntax strips comments in the tokenizer; this parser
 // keeps them as tokens when asked to, so every place that steps over white space must step over comments too).
 func c06Trivia(c *core.Check) {
-	r := c.Rule("R5", "white space and comments are skipped together: in the parsing code, every switch with a case for the white-space token (kind or type) has a case for the comment token, and every condition that excludes white space excludes comments in the same condition", 6)
+	r := c.Rule("R5", "white space and comments are skipped together: in the parsing code, every switch with a case for the white-space token (kind or type) has a case for the comment token, and every condition that excludes white space excludes comments in the same condition", 8)
 	triviaRule(c, r)
 }
 
